@@ -637,6 +637,15 @@ class Engine:
                     return self.discriminants[name]
                 if name.split("::")[-1] in ("Ok", "Err"):
                     return 0 if name.endswith("Ok") else 1
+            if isinstance(v, tuple) and v and v[0] == "abs_val" and any(k.startswith("Value::") for k in self.discriminants):
+                # an abstract value whose kind the code asks for: the kind becomes a solver decision (one symbolic discriminant
+                # per abstract value, consistent along the path); obligations are stated for all kinds, so whatever the code
+                # does for a particular kind is explored
+                n_kinds = 1 + max(d for k, d in self.discriminants.items() if k.startswith("Value::"))
+                d = z3.Int("kind_of_%s" % re.sub(r"\W+", "_", str(v[1])))
+                self.solver.add(z3.And(d >= 0, d < n_kinds))
+                self.cached_model = None
+                return d
             raise Unsupported("discriminant of %r" % (v,))
         if s.startswith("&raw const (fake) ") or s.startswith("&raw const ") or s.startswith("&raw mut "):
             pl = s.split(") ", 1)[1] if "(fake)" in s else s.split(" ", 2)[2]
